@@ -3,13 +3,18 @@
    resource +d (emitted only when max_retries is configured, as resource_manager.go does).  `family`, `allowed`: see Props/C03.v. *)
 From Coq Require Import List ZArith Bool.
 From RecordUpdate Require Import RecordSet.
+(* Model.ProxyCheck (the correspondence checker used by the case shards) is imported so that it is built with this file *)
+From MV Require Import Model.ProxyCheck.
 From MV Require Import Model.Proxy Model.ProxySpec Proofs.ProxyReach Proofs.ProxyFamily Proofs.ProxyFam Proofs.ProxyRefute
-  Proofs.ProxyThm Proofs.ProxyGen Gen.ProxyTokens.
+  Proofs.ProxyThm Proofs.ProxyGen Proofs.ProxySrc Gen.ProxyTokens.
 Import ListNotations RecordSetNotations.
 Open Scope Z_scope.
 
 Theorem c10_translator_ok : ProxyTokens_translator_ok = true.
 Proof. exact (eq_refl true). Qed.
+(* the switches read from the source on this run are the ones the family theorems were proved for *)
+Theorem c10_source_is_verified_source : proxy_src = src_tree.
+Proof. exact (eq_refl src_tree). Qed.
 
 (* ---- the active gauge: EVERY configuration, EVERY schedule ----
    the gauge is decremented at most once per request, exactly when the stream is cleaned (so 1 + sum is 0 or 1, never negative),
